@@ -2,6 +2,7 @@ package props
 
 import (
 	"bytes"
+	"math/big"
 	"crypto/cipher"
 	"encoding/json"
 	"fmt"
@@ -177,7 +178,7 @@ func (c10) Generate(idx int, r *core.Rand, tier string) core.Script {
 			op.NonceSeed = w.Uint64()
 		case k == 4:
 			op.Kind = "SM2"
-			op.SM2Op = []string{"Verify", "ZA", "DerivePublic", "Sign"}[w.Intn(4)]
+			op.SM2Op = []string{"Verify", "ZA", "DerivePublic", "Sign", "CheckOnCurve", "VerifyBad"}[w.Intn(6)]
 			op.NonceSeed = w.Uint64()
 		default:
 			op.Kind = "Seal"
@@ -607,6 +608,40 @@ func c10SM2(op c10Op, i int, pl *pool, log *core.Log, report func(class, op, rol
 			log.Add("op%d DerivePublic %s", i, core.Hex8(x1))
 			if !bytes.Equal(x1, x2) || !bytes.Equal(y1, y2) {
 				report("not-repeatable", name, "private-key", "inputs", "second DerivePublic differs")
+			}
+		case "CheckOnCurve", "VerifyBad":
+			// key material as it arrives from a faulty wire: coordinates >= p, off-curve
+			// points, r or s >= n. The answer is "no" - and the caller's buffers must still
+			// be what they were.
+			bx, by, br := px, py, pr
+			switch r.Intn(5) {
+			case 0:
+				bx = put("badx", "public-key", ref.Pad32(ref.SM2P))
+			case 1:
+				sx, sy := smallXPoint(r)
+				bx, by = put("badx", "public-key", ref.Pad32(new(big.Int).Add(sx, ref.SM2P))), put("bady", "public-key", ref.Pad32(sy))
+			case 2:
+				by = put("bady", "public-key", bytes.Repeat([]byte{0xff}, 32))
+			case 3:
+				bx = put("badx", "public-key", r.Bytes(32))
+			default:
+				br = put("badr", "signature", ref.Pad32(ref.SM2N))
+			}
+			if op.SM2Op == "CheckOnCurve" {
+				a1 := sm2.CheckOnCurve(bx, by)
+				a2 := sm2.CheckOnCurve(bx, by)
+				g1 := sm2.CheckOnCurve(px, py)
+				log.Add("op%d CheckOnCurve %v %v good=%v", i, a1, a2, g1)
+				if a1 != a2 {
+					report("not-repeatable", name, "public-key", "inputs", "second CheckOnCurve on the same buffers differs")
+				}
+			} else {
+				ok1, _ := sm2.VerifyHashed(bx, by, pe, br, ps)
+				ok2, _ := sm2.VerifyHashed(bx, by, pe, br, ps)
+				log.Add("op%d VerifyHashed(bad) %v %v", i, ok1, ok2)
+				if ok1 != ok2 {
+					report("not-repeatable", name, "signature", "inputs", "second VerifyHashed on the same buffers differs")
+				}
 			}
 		case "Sign":
 			c := rng.Content{TailSeed: op.NonceSeed}
